@@ -21,7 +21,7 @@ INVARIANTS TypeOK WaitListSound WaitListComplete
  PrC05_Table PrC05_RejectNoTrace PrC05_Bound PrC05_UndefinedRejected
  PrC06_Fifo PrC07_NotBefore
  PrC08_FailFast PrC08_VerdictSound PrC08_NoRunningAfterCompleted
- PrC10_AllTerminal PrC10_NoGhosts PrC10_SameSet PrC10_FinishedFaithful
+ PrC10_AllTerminal PrC10_NoGhosts PrC10_SameSet PrC10_FinishedFaithful PrC10_NoGhostCapacity
  PrC11_AllTerminal PrC11_StoreMatches PrC11_RejectAfter PrC11_GracefulRunsOut PrC11_ForcedCancels PrC11_ForcedStops PrC11_PersistWithinInterval
  PrC12_KeepsUnfinished PrC12_NoSettingsNoRemoval PrC12_NewestFirstClosure PrC12_CountBound PrC12_PeriodBound PrC12_UndefinedPurged PrC12_ThreeViewsAgree
  PrC15_SchedulableIffAccepted PrC15_RunningIffExecuting PrC15_ListedFromReturn PrC15_NewestFirst PrC15_TimesOrdered PrC15_TaskOrder
